@@ -312,6 +312,32 @@ func (n *node) andTerms() []*node {
 	return r
 }
 
+// flat returns the operands (and for chain+ the signs between them) of a
+// & | or + - chain with nested chains of the same operator spliced in, as the
+// folder does for parenthesised operands (a subtracted chain is not spliced).
+func (n *node) flat() (kids []*node, signs string) {
+	for i, k := range n.kids {
+		sign := byte('+')
+		if i > 0 && n.op == "chain+" {
+			sign = n.signs[i-1]
+		}
+		if k.op == n.op && sign == '+' {
+			ks, ss := k.flat()
+			if len(kids) > 0 {
+				signs += "+"
+			}
+			kids = append(kids, ks...)
+			signs += ss
+			continue
+		}
+		if len(kids) > 0 {
+			signs += string(sign)
+		}
+		kids = append(kids, k)
+	}
+	return kids, signs
+}
+
 // orAlts returns the alternatives of an or (through nested ors).
 func (n *node) orAlts() []*node {
 	if n.op != "or" {
